@@ -9,6 +9,9 @@ def run(ctx, prefixes):
     ok, _, _, _ = ctx.mc("H2Relay.tla", "MC_H2Relay_BugZeroCostHeld.cfg", expect_ok=False)
     if ok:
         raise vlib.Infra("H2Relay mutant BugZeroCostHeld not detected by the model")
+    ok, _, _, _ = ctx.mc("H2Relay.tla", "MC_H2Relay_SplitOnlyAtEnqueue.cfg", expect_ok=False)
+    if ok:
+        raise vlib.Infra("H2Relay mutant SplitOnlyAtEnqueue not detected by the model")
     ctx.mc("H2Hpack.tla", "MC_H2Hpack.cfg")
     binp = ctx.build()
     n = 60 if q else 1500
@@ -39,6 +42,12 @@ def run(ctx, prefixes):
         {"h": [act("headers", 1), act("data", 1, 40000), act("ctl", 0, t="SI", v=100), act("rst", 1, n=8)]},
         {"h": [act("headers", 1), act("data", 1, 40000), act("headers", 3), act("data", 3, 20000), act("ctl", 0, t="SI", v=1),
                act("headers", 1, es=True), act("data", 3, 0, es=True)]},
+        # the receiver lowers its SETTINGS_MAX_FRAME_SIZE while a DATA frame cut to the old limit waits for window
+        # (MC_H2Relay_SplitOnlyAtEnqueue)
+        {"h": [act("ctl", 0, t="SM", v=20000), act("headers", 1), act("data", 1, 40000), act("data", 1, 40000),
+               act("ctl", 0, t="SM", v=16384), act("ctl", 0, t="WU", v=65535), act("ctl", 1, t="WU", v=65535)]},
+        {"h": [act("ctl", 0, t="SM", v=20000), act("headers", 3), act("data", 3, 40000), act("data", 3, 20000), act("data", 3, 20000, es=True),
+               act("ctl", 0, t="SM", v=16384), act("ctl", 3, t="WU", v=65535), act("ctl", 0, t="WU", v=65535)]},
     ]
     trace = os.path.join(ctx.work, "h2.ndjson")
     out = ctx.run_vh(binp, ["h2", "--arg", "trace=" + trace], cases=cases, timeout=3000)
